@@ -17,7 +17,7 @@ def run(tier, seed):
             p = g.program()
             p["cls"] = "open"
         elif c == 1:    # closed models
-            p = g.program({"kind_pool": ["transition", "transition", "absolute"], "p_udeath": 0.0})
+            p = g.program({"kind_pool": ["transition", "transition", "absolute"], "p_udeath": 0.0, "self_flow": 0.3})
             p["cls"] = "closed"
         else:           # deaths + replacement births only
             p = g.program({"kind_pool": ["transition", "death", "death", "replacement_birth", "replacement_birth"],
